@@ -26,6 +26,7 @@ def rand_T(rng, small=False):
 
 
 def run(ctx):
+    from shapepy import JordanCurve
     from shapepy import IntegrateShape, Primitive
     rng, drv = ctx.rng, ctx.drv
     n = 30 if ctx.quick else 400
@@ -114,6 +115,50 @@ def run(ctx):
                 ctx.fail("operator did not return", desc)
             except Exception as ex:
                 ctx.fail("operator raised after in-place transformation of earlier operands", desc, got=repr(ex))
+    # ---- measured first, THEN re-scaled in place (a change of unit of an existing drawing): areas scale by k^2, containment is unchanged
+    from shapepy.shape import SimpleShape, ConnectedShape
+    for it in range(6 if ctx.quick else 40):
+        k = rng.choice([F(1, 1000), F(1, 20), 10, 25, 1000])
+        cx, cy = rng.randint(-3, 3), rng.randint(-3, 3)
+        outer = [(cx - 4, cy - 4), (cx + 4, cy - 3), (cx + 5, cy + 4), (cx - 3, cy + 5)]
+        inner = [(cx - 1, cy - 1), (cx + 1, cy - 1), (cx + 2, cy + 1), (cx, cy + 2)]
+        apart = [(cx + 7, cy), (cx + 9, cy), (cx + 9, cy + 2)]
+        A, B, Cc = impl.poly(outer), impl.poly(inner), impl.poly(apart)
+        ring = A - B
+        desc = {"outer": outer, "inner": inner, "apart": apart, "factor": k}
+        ctx.case("measure-then-rescale", (tuple(outer), tuple(inner), k))
+        before = {"B in A": B in A, "A in B": A in B, "C in A": Cc in A, "B in ring": B in ring, "areaA": float(A), "areaB": float(B), "areaR": float(ring)}
+        for X in (A, B, Cc, ring):
+            X.scale(k, k)
+        after = {"B in A": B in A, "A in B": A in B, "C in A": Cc in A, "B in ring": B in ring, "areaA": float(A), "areaB": float(B), "areaR": float(ring)}
+        kk = float(k) ** 2
+        exp = {q: (v if isinstance(v, bool) else v * kk) for q, v in before.items()}
+        ok = all((after[q] == exp[q]) if isinstance(exp[q], bool) else abs(after[q] - exp[q]) <= 1e-9 * abs(exp[q]) for q in exp)
+        ctx.check(ok, "a drawing measured and then re-scaled in place answers differently from the same drawing in the new unit", desc, exp, after)
+        A2, B2 = impl.poly([(x * k, y * k) for x, y in outer]), impl.poly([(x * k, y * k) for x, y in inner])
+        ctx.check((B2 in A) == before["B in A"] and (B in A2) == before["B in A"] and (A2 in B) == before["A in B"],
+                  "containment between a re-scaled drawing and a fresh drawing in the new unit differs", desc)
+    # ---- orientation: a curved shape that fits TIGHTLY in a polygon (control polygon pokes out of the polygon's box in some orientations only)
+    tight = []
+    circ = lambda: Primitive.circle(radius=1.0, ndivangle=16).rotate(math.pi / 16)
+    tight.append(("circle-in-square-2.02", circ, lambda: Primitive.square(side=2.02), True))
+    tight.append(("circle-in-square-1.98", circ, lambda: Primitive.square(side=1.98), False))
+    lens = lambda: SimpleShape(JordanCurve.from_ctrlpoints([[(-2.0, 0.0), (0.0, -1.0), (2.0, 0.0)], [(2.0, 0.0), (0.0, 1.0), (-2.0, 0.0)]]))
+    tight.append(("lens-in-rectangle", lens, lambda: impl.poly([(-2.2, -0.6), (2.2, -0.6), (2.2, 0.6), (-2.2, 0.6)]), True))
+    for name, mkB, mkA, truth in tight:
+        answers = {}
+        for ang in (0.0, 0.2, math.pi / 4, math.pi / 2, 2.0):
+            for unit, shift in ((1.0, (0.0, 0.0)), (50.0, (300.0, -200.0))):
+                A, B = mkA(), mkB()
+                for X in (A, B):
+                    X.rotate(ang); X.scale(unit, unit); X.move(shift)
+                ctx.case("tight-fit-orientation", (name, ang, unit))
+                try:
+                    with impl.time_limit(120):
+                        answers[(round(ang, 3), unit)] = (B in A)
+                except impl.Timeout:
+                    answers[(round(ang, 3), unit)] = "timeout"
+        ctx.check(all(v == truth for v in answers.values()), "T(B) in T(A) depends on the orientation / unit of the drawing", {"pair": name}, truth, {str(k): v for k, v in answers.items()})
     # ---- deterministic float / curved scale sweep: circle & square at several units
     global REF_AREA
     REF_AREA = _ref()
